@@ -42,7 +42,58 @@ fn run(cap: usize, seq: &[Op]) -> Result<(), String> {
     Ok(())
 }
 
+/// ghost mode: `m` tracked entries (keys 0..m, oldest first), then `g` untracked ones (keys 100..)
+/// that the stand-in only counts; sequences on which the stand-in gives up (VERIF-MODEL-BOUND) are skipped
+fn run_ghost(cap: usize, m0: u8, g: usize, seq: &[Op]) -> Result<bool, String> {
+    let mut r = lru_real::LruCache::<u8, u8>::new(NonZeroUsize::new(cap).unwrap());
+    let mut m = lru_model::LruCache::<u8, u8>::new(NonZeroUsize::new(cap).unwrap());
+    for k in 0..m0 {
+        r.put(k, k + 50);
+        m.put(k, k + 50);
+    }
+    for i in 0..g {
+        r.put(100 + i as u8, 0);
+    }
+    m.ghost = g;
+    m.above = 0;
+    let out = std::panic::catch_unwind(std::panic::AssertUnwindSafe(|| -> Result<(), String> {
+        for (i, op) in seq.iter().enumerate() {
+            let (a, b) = match *op {
+                Op::Put(k, v) => (format!("{:?}", r.put(k, v)), format!("{:?}", m.put(k, v))),
+                Op::Get(k) => (format!("{:?}", r.get(&k)), format!("{:?}", m.get(&k))),
+                Op::GetMut(k) => (format!("{:?}", r.get_mut(&k).map(|x| { *x += 1; *x })), format!("{:?}", m.get_mut(&k).map(|x| { *x += 1; *x }))),
+                Op::Peek(k) => (format!("{:?}", r.peek(&k)), format!("{:?}", m.peek(&k))),
+                Op::PopLru => {
+                    let b = format!("{:?}", m.pop_lru());
+                    (format!("{:?}", r.pop_lru()), b)
+                }
+                Op::Len => (format!("{}", r.len()), format!("{}", m.len())),
+                Op::Iter => {
+                    let b = format!("{:?}", m.iter().map(|(k, v)| (*k, *v)).collect::<Vec<_>>());
+                    (format!("{:?}", r.iter().map(|(k, v)| (*k, *v)).collect::<Vec<_>>()), b)
+                }
+            };
+            if a != b {
+                return Err(format!("ghost cap {cap} tracked {m0} ghost {g}, step {i} {:?} of {:?}: real {a} != model {b}", op, seq));
+            }
+            if r.len() != m.len() {
+                return Err(format!("ghost cap {cap} tracked {m0} ghost {g}, after step {i} of {:?}: len {} != {}", seq, r.len(), m.len()));
+            }
+        }
+        Ok(())
+    }));
+    match out {
+        Ok(Ok(())) => Ok(true),
+        Ok(Err(e)) => Err(e),
+        Err(p) => {
+            let msg = p.downcast_ref::<String>().cloned().or_else(|| p.downcast_ref::<&str>().map(|s| s.to_string())).unwrap_or_default();
+            if msg.starts_with("VERIF-MODEL-BOUND") { Ok(false) } else { Err(format!("model panicked: {msg}")) }
+        }
+    }
+}
+
 fn main() {
+    std::panic::set_hook(Box::new(|_| {}));
     let depth: usize = std::env::args().nth(1).and_then(|s| s.parse().ok()).unwrap_or(4);
     let all = ops();
     let mut n = 0u64;
@@ -69,5 +120,38 @@ fn main() {
             if p == usize::MAX { break; }
         }
     }
+    // ghost mode (Put of a model-op order matters: the model op runs FIRST where it may give up, so
+    // that the real cache is not consulted after the stand-in has given up)
+    let mut ng = 0u64;
+    let mut skipped = 0u64;
+    let gdepth = depth.min(4);
+    for (m0, g) in [(0u8, 1usize), (1, 1), (2, 1), (1, 2), (2, 3), (3, 2)] {
+        for spare in 0..=1usize {
+            let cap = m0 as usize + g + spare;
+            let mut idx = vec![0usize; gdepth];
+            loop {
+                let seq: Vec<Op> = idx.iter().map(|&i| all[i]).collect();
+                match run_ghost(cap, m0, g, &seq) {
+                    Ok(true) => ng += 1,
+                    Ok(false) => skipped += 1,
+                    Err(e) => {
+                        println!("MISMATCH {e}");
+                        std::process::exit(1);
+                    }
+                }
+                let mut p = gdepth;
+                loop {
+                    if p == 0 { break; }
+                    p -= 1;
+                    idx[p] += 1;
+                    if idx[p] < all.len() { break; }
+                    idx[p] = 0;
+                    if p == 0 { p = usize::MAX; break; }
+                }
+                if p == usize::MAX { break; }
+            }
+        }
+    }
+    println!("ghost entries: agrees on {ng} sequences of length {gdepth} ({skipped} skipped: the stand-in gave up with VERIF-MODEL-BOUND)");
     println!("lru stand-in agrees with lru 0.13 on {n} operation sequences of length {depth} (all prefixes), capacities 1..=3");
 }
